@@ -345,6 +345,8 @@ def op_strategy():
 def plan(tier, seed):
     specs = [dict(name="timelines-%d" % i, kind="timelines", n=1000 if tier == "quick" else 40000) for i in range(16)]
     specs.append(dict(name="directed", kind="directed"))
+    # once more with the library's debug tracing switched on
+    specs.append(dict(name="tracing-timelines", kind="timelines", n=150 if tier == "quick" else 5000, tracing=True))
     return specs
 
 
